@@ -11,11 +11,11 @@ from .common import BUILD, OUT, REPO, VERIF, log, read, repo_fingerprint, write
 from .findings import load_findings, match_finding
 from .props import PROPS
 from .gentypes import gen_types
-from . import genpages
+from . import genpages, genframes
 
 
 MAX_PLAYBACK = 2
-GLOBAL_GENERATORS = [gen_types, genpages.gen_pages]
+GLOBAL_GENERATORS = [gen_types, genpages.gen_pages, genframes.gen_frames]
 
 
 def tier_specs(prop, tier):
